@@ -450,6 +450,47 @@ async fn one_config(a: Args, idx: usize, proto: Proto, transport: Transport, use
             rep.violation(format!("C02|{}|target-side:{}", cfgname, crate::panicmon::normalise(p)), format!("{}: {}", cfgname, p), json!({"seed": a.seed, "deploy": d.describe()}));
         }
     }
+    // Trojan carries the datagrams of one application socket for ALL targets in one stream, each with its own address: a
+    // burst that names one and the same target socket in turns by NAME and by ADDRESS must arrive in the order it was sent
+    // (a relay that resolves names on the side lets the literals overtake)
+    if any_answered && matches!(proto, Proto::Trojan) {
+        if let Ok(ts) = UdpSocket::bind("127.0.0.1:0").await {
+            let tport = ts.local_addr().map(|x| x.port()).unwrap_or(0);
+            let order: Arc<Mutex<Vec<u32>>> = Arc::new(Mutex::new(Vec::new()));
+            let o2 = order.clone();
+            let nonce4 = nonce ^ 0x0DE2;
+            let tt = tokio::spawn(async move {
+                let mut b = vec![0u8; 4096];
+                while let Ok((n, _)) = ts.recv_from(&mut b).await {
+                    if let Ok(id) = check_payload(nonce4, &b[..n]) {
+                        o2.lock().unwrap().push(id.seq);
+                    }
+                }
+            });
+            let app = UdpSocket::bind("127.0.0.1:0").await.expect("bind");
+            // the first datagram opens the binding (it is resolved before the stream is set up); then bursts of eight
+            let _ = app.send_to(&socks5_udp("127.0.0.1", tport, &make_payload(nonce4, 7000, 0, 0, 60, 0)), ("127.0.0.1", d.client_port)).await;
+            tokio::time::sleep(Duration::from_millis(300)).await;
+            let mut seq = 1u32;
+            for _burst in 0..if a.thorough { 30 } else { 10 } {
+                for k in 0..8 {
+                    let host = if k % 2 == 0 { "localhost" } else { "127.0.0.1" };
+                    let _ = app.send_to(&socks5_udp(host, tport, &make_payload(nonce4, 7000, 0, seq, 60, 0)), ("127.0.0.1", d.client_port)).await;
+                    seq += 1;
+                }
+                tokio::time::sleep(Duration::from_millis(40)).await;
+            }
+            tokio::time::sleep(Duration::from_millis(400)).await;
+            tt.abort();
+            let got = order.lock().unwrap().clone();
+            rep.mon("datagrams_of_one_stream_checked_for_their_order", got.len() as u64);
+            rep.case(&(idx, "order-in-one-stream"), !got.is_empty());
+            let inversions: Vec<(u32, u32)> = got.windows(2).filter(|w| w[1] < w[0]).map(|w| (w[0], w[1])).collect();
+            if !inversions.is_empty() {
+                rep.violation(format!("C02|{}|datagrams-of-one-stream-arrive-out-of-order", cfgname), format!("{}: {} of {} datagrams of one application socket (one stream) overtook an earlier one, e.g. seq {} arrived before seq {}", cfgname, inversions.len(), got.len(), inversions[0].1, inversions[0].0), json!({"seed": a.seed, "deploy": d.describe(), "arrival_order": got.iter().take(60).collect::<Vec<_>>(), "names": "even seq: localhost, odd seq: 127.0.0.1 - the same target socket"}));
+            }
+        }
+    }
     // tiny datagrams, one at a time
     if any_answered {
         for data in [&b""[..], &b"x"[..], &b"xy"[..]] {
